@@ -6,8 +6,9 @@ use crate::axecutor::Axecutor;
 use crate::helpers::errors::AxError;
 
 use crate::helpers::macros::calculate_r_rm;
-use crate::helpers::macros::calculate_rm_r;
 use crate::helpers::macros::fatal_error;
+use crate::helpers::operand::Operand;
+use crate::state::registers::SupportedRegister;
 use crate::state::flags::*;
 
 impl Axecutor {
@@ -24,15 +25,29 @@ impl Axecutor {
         }
     }
 
+    /// Destination register and zero-extended value of the r/m8 source (register or memory)
+    fn movzx_operands_rm8(&self, i: Instruction) -> Result<(SupportedRegister, u64), AxError> {
+        let (dest, src) = self.instruction_operands_2(i)?;
+        let src_val = match src {
+            Operand::Memory(m) => self.mem_read_8(self.mem_addr(m))?,
+            Operand::Register(r) => self.reg_read_8(r)?,
+            _ => fatal_error!(
+                "Invalid source operand {:?} for {:?} instruction",
+                src,
+                i.mnemonic()
+            ),
+        };
+        Ok((dest.into(), src_val))
+    }
+
     /// MOVZX r16, r/m8
     ///
     /// o16 0F B6 /r
     fn instr_movzx_r16_rm8(&mut self, i: Instruction) -> Result<(), AxError> {
         debug_assert_eq!(i.code(), Movzx_r16_rm8);
 
-        calculate_rm_r![u16f; u8; self; i; |_, s| {
-            (s as u16, 0)
-        }; (set: FLAGS_UNAFFECTED; clear: 0)]
+        let (dest, src_val) = self.movzx_operands_rm8(i)?;
+        self.reg_write_16(dest, src_val)
     }
 
     /// MOVZX r32, r/m8
@@ -41,9 +56,8 @@ impl Axecutor {
     fn instr_movzx_r32_rm8(&mut self, i: Instruction) -> Result<(), AxError> {
         debug_assert_eq!(i.code(), Movzx_r32_rm8);
 
-        calculate_rm_r![u32f; u8; self; i; |_, s| {
-            (s as u32, 0)
-        }; (set: FLAGS_UNAFFECTED; clear: 0)]
+        let (dest, src_val) = self.movzx_operands_rm8(i)?;
+        self.reg_write_32(dest, src_val)
     }
 
     /// MOVZX r64, r/m8
@@ -52,9 +66,8 @@ impl Axecutor {
     fn instr_movzx_r64_rm8(&mut self, i: Instruction) -> Result<(), AxError> {
         debug_assert_eq!(i.code(), Movzx_r64_rm8);
 
-        calculate_rm_r![u64f; u8; self; i; |_, s| {
-            (s as u64, 0)
-        }; (set: FLAGS_UNAFFECTED; clear: 0)]
+        let (dest, src_val) = self.movzx_operands_rm8(i)?;
+        self.reg_write_64(dest, src_val)
     }
 
     /// MOVZX r32, r/m16
